@@ -154,6 +154,16 @@ def summarize(ctx, traces):
         "max_iterations": max(iters) if iters else 0,
         "by_kind": {k: sum(1 for t in traces if t["kind"] == k) for k in sorted({t["kind"] for t in traces})},
     })
+    # binding of the hook: a tree whose solver source carries the hook must produce the events (the write-back
+    # event is emitted by every fit); otherwise the instrumented code is not the code that ran
+    try:
+        with open(vlib.REPO + "/algorithms/linfa-svm/src/solver_smo.rs") as f:
+            hooked_source = "smo.writeback" in f.read()
+    except OSError:
+        hooked_source = False
+    ctx.extra["hook_in_source"] = hooked_source
+    if hooked_source and hooks == 0:
+        raise vlib.ToolError("linfa-svm carries the smo.* hook but no hook event was recorded (guard off / hook not reached)")
     # non-trivial: the solver needed more iterations than variables (so the shrinking heuristic ran when enabled)
     return many
 
